@@ -24,6 +24,7 @@ PRELUDE = """
     pub struct St { pub a: u8, pub b: u32 }
     pub struct Nest { pub s: St, pub e: En, pub f: f64 }
     pub struct SB<'a> { pub r: &'a Op }
+    pub struct SB2<'a, 'b> { pub x: SB<'a>, pub y: SB<'b> }
     #[diplomat::out]
     pub struct OutSt { pub b: Box<Op>, pub n: i32 }
     pub struct Zst {}
